@@ -34,7 +34,9 @@ CLAIMS.update({
                     "start and >= new_size bytes, exactly the granules behind it are given back, and the pattern fill covers exactly that memory in the writable view of the same block. "
                     "Pool accounting: JitAllocatorImpl_insertBlock / removeBlock (list order, address-tree call, totals, and the cursor never designating a block that left the list) "
                     "modular over the proved ArenaList::unlink/_add_node contracts, pools of <= 3 blocks. "
-                    "JitAllocator::alloc/release/query/reset (range search, block creation, virtual memory) are not under contract: partial.",
+                    "Free-range search: BitVectorRangeIterator<BitWord,0>::init/next_range - the iterator invariant is established by init and kept by every next_range, and every returned "
+                    "range is non-empty, inside the window and consists of free granules only, given that no free granule lies at or beyond the window end (which is wf_block's "
+                    "search-window clause). JitAllocator::alloc/release/query/reset themselves (their glue, block creation, virtual memory) are not under contract: partial.",
             "note": COMMON_NOTE + " Bit-vector functions are inlined into the block units (their bodies are re-verified in context)."},
     "C18": {"category": "model_checking",
             "text": "Arena: _alloc_oneshot (block chain free of dangling links, result aligned/inside the new current block, failure leaves the bump pointer), _alloc_reusable (granted size = slot "
